@@ -109,7 +109,7 @@ CHECKS['C06'] = dict(
     rule=('enumerated table: 5 request kinds x 19 fault sites (with modes) x position classes x {service,gRPC}, run completely in both tiers, plus '
           'rapid-generated plans of 0-4 faults; a case is non-trivial iff a planned fault actually fired on a position that the fault-free twin run of the '
           'same request signed; distinct = sha256 of the case JSON'),
-    essential=['fault-fired-on-otherwise-signed-position', 'multi-fault-plan', 'enumerated-single-fault-cases'] + ['fired:' + s for s in [
+    essential=['fault-fired-on-otherwise-signed-position', 'multi-fault-plan', 'enumerated-single-fault-cases', 'batch-with-rule-denied-positions'] + ['fired:' + s for s in [
         'fetch', 'check', 'isunlocked-err', 'unlock-err', 'unlock-false', 'locked-unknown-passphrase', 'rules', 'ruler', 'rules-list', 'store-fetch-err',
         'store-store-err', 'store-batch-err', 'record-undecodable', 'store-closed-before', 'store-closed-at-fetch', 'store-closed-at-store',
         'hash-fail', 'sign-err', 'non-signer']],
@@ -355,7 +355,7 @@ CHECKS['C20'] = dict(
                 '(real rules store, wallets, a second instance as key-generation peer). The child runs under RLIMIT_AS = 16 GiB. Oracle: the child stays alive, every handler returns a response or an error, '
                 'and after each case a second client can still list and sign correctly. The thorough tier adds coverage-guided native fuzzing over the same structured space.'),
     level_note='Native fuzzing cannot be pinned to a seed; its saved crasher is the reproducible unit. A child death is reported with the top of the Go crash report.',
-    parts=[part('TestC20', 250, 3000, qshards=2)],
+    parts=[part('TestC20', 250, 3000, qshards=2), dict(test='FuzzC20', fuzz='FuzzC20', replay_test='TestC20FuzzReplay', quick=dict(seconds=0), thorough=dict(seconds=180))],
     rule=('a case is a sequence of 1-10 wire requests; non-trivial iff a request with at least one field outside the well-formed envelope got past the handler\'s own validation '
           '(answer other than the early-exit DENIED or an error); distinct = sha256 of the case JSON'),
     essential=['hostile-requests-that-reached-service-code'] + ['method:' + m for m in ['Signer/Sign', 'Signer/Multisign', 'Signer/SignBeaconAttestation', 'Signer/SignBeaconAttestations',
